@@ -103,6 +103,10 @@ func c06build(f string, rot int) *c06built {
 					cs.Matrix = &pipeline.Matrix{Setup: pipeline.MatrixSetup{"": {"a", "b"}}}
 					cs.Plugins = nil
 				}
+				if i%3 == 0 {
+					// configs that are empty but not nil (what `plugin#v1: {}` parses to): signing must leave them as they are
+					cs.Plugins = append(cs.Plugins, &pipeline.Plugin{Source: "./empty-map", Config: map[string]any{}}, &pipeline.Plugin{Source: "./empty-list", Config: []any{}})
+				}
 				b.commands = append(b.commands, cs)
 				steps = append(steps, cs)
 				pos++
